@@ -157,8 +157,11 @@ func (c chainBridge) InsertChain(momentums []*nom.DetailedMomentum) (int, error)
 		if err != nil {
 			return 0, err
 		}
-		if target.Identifier() != head.Previous() {
+		if target == nil || target.Identifier() != head.Previous() {
 			log.Error("can't link momentums to insert", "first")
+			if target == nil {
+				return 0, errors.Errorf("can't link momentums to insert. First momentum Prev is %v but we have nothing at that height", head.Previous())
+			}
 			return 0, errors.Errorf("can't link momentums to insert. First momentum Prev is %v but he have %v", head.Previous(), target.Identifier())
 		}
 
